@@ -128,6 +128,9 @@ type Case struct {
 	// UseRun: call Run instead of Execute and compare with the truth of Exp.Val.
 	UseRun bool   `json:"use_run,omitempty"`
 	TZ     string `json:"tz,omitempty"` // value of the TZ variable during the run ("-" = unset)
+	// Hazard: the expression contains a range whose size the model could not
+	// bound once it left the specified part; such a case is not executed.
+	Hazard bool `json:"hazard,omitempty"`
 	Exp    Expect `json:"expect"`
 	Msg    string `json:"message,omitempty"`
 }
@@ -161,6 +164,10 @@ func expectFromModel(m *lang.Machine, prog *lang.Program) Expect {
 		case lang.IsKind(err, lang.ErrRuntime):
 			e.Err = true
 			e.Why = err.Error()
+		case lang.IsKind(err, lang.ErrBudget):
+			// too long for the model: the engine is not run either
+			e.Unspec = true
+			e.Why = "resource: " + err.Error()
 		default:
 			e.Unspec = true
 			e.Why = err.Error()
@@ -239,12 +246,15 @@ func checkEffects(res eng.Result, exp Expect) error {
 
 // runCase executes a Case against the engine and checks it.
 func runCase(c *Case) error {
-	if c.Exp.Unspec && strings.HasPrefix(c.Exp.Why, "resource:") {
-		return nil // excluded by the property: needs more memory than a host has
+	if c.Exp.Unspec && (c.Hazard || strings.HasPrefix(c.Exp.Why, "resource:")) {
+		return nil // excluded by the property: (possibly) needs more memory than a host has
 	}
 	var obj interface{}
 	if c.Obj != nil {
 		obj = c.Obj.Build()
+	}
+	if j := os.Getenv("VERIF_DEBUG_JOURNAL"); j != "" {
+		_ = os.WriteFile(j, []byte(c.Script+"\n"+fmt.Sprint(c.Vars, c.Obj, c.Exp.Why)), 0o644)
 	}
 	if c.TZ != "" {
 		old, had := os.LookupEnv("TZ")
